@@ -92,6 +92,7 @@ type Frame struct {
 }
 
 type Unit struct {
+	atApplied  map[string]int // "at" clauses: number of call sites each was evaluated at
 	prog       *Program
 	fn         *ssa.Function
 	contract   *Contract
